@@ -360,11 +360,16 @@ Integrate ==
     /\ "Int" \in F.manips /\ Nd(L).sp /\ Len(Nd(L).sh) <= 1
     /\ \E wb \in {0, 1} : Push(Node("Int", <<L>>, <<wb>>, "", IF wb = 1 THEN Append(Nd(L).sh, NB) ELSE Nd(L).sh, Nd(L).dt, FALSE,
                                     Nd(L).fv, Nd(L).dg, Nd(L).nd))
-Manip == /\ Idle /\ L >= 1 /\ nman < F.maxman
-         /\ \/ ("Replace" \in F.manips /\ (ReplaceSingle \/ ReplaceDouble))
-            \/ Linearize \/ Derive \/ Factorize \/ Integrate
-         /\ nman' = nman + 1 /\ UNCHANGED <<fam, res>>
-BadReplace == Idle /\ "Replace" \in F.manips /\ nman < F.maxman /\ ReplaceBad
+\* one manipulation of the function built so far (the last node)
+Manip(Act) == /\ Idle /\ L >= 1 /\ nman < F.maxman /\ Act
+              /\ nman' = nman + 1 /\ UNCHANGED <<fam, res>>
+DoReplaceSingle == "Replace" \in F.manips /\ Manip(ReplaceSingle)
+DoReplaceDouble == "Replace" \in F.manips /\ Manip(ReplaceDouble)
+DoLinearize == Manip(Linearize)
+DoDerive == Manip(Derive)
+DoFactorize == Manip(Factorize)
+DoIntegrate == Manip(Integrate)
+DoReplaceBad == Idle /\ "Replace" \in F.manips /\ nman < F.maxman /\ ReplaceBad
 
 \* ------------------------------------------------------------------ evaluation
 Complete == L >= 1 /\ Unused = {L} /\ ~Nd(L).sp
@@ -380,7 +385,7 @@ GoodOutcome(g, mode) ==
 BadOutcome(a, dep, kind, bsh) ==
     [NoRes EXCEPT !.verdict = IF dep THEN "REJECT" ELSE "ANY", !.stage = "call", !.asg = 1, !.mode = "direct",
                   !.bad = [x |-> a, kind |-> kind, id |-> 0], !.badsh = bsh]
-EvalGood == \E g \in GoodAsg : \E mode \in (IF g = 1 THEN {"direct", "integral"} ELSE {"direct"}) :
+EvalGood == \E g \in GoodAsg \cap F.asgs : \E mode \in (IF g = 1 THEN {"direct", "integral"} ELSE {"direct"}) :
                /\ (mode = "integral" => Len(Nd(L).sh) <= 2)
                /\ res' = GoodOutcome(g, mode)
 EvalBad == /\ F.nbad > 0
@@ -388,12 +393,14 @@ EvalBad == /\ F.nbad > 0
                 LET dep == Depends(a) IN
                 \/ \E q \in 1..Len(BadShapes(ArgPool[a].sh)) : q <= F.nbad /\ res' = BadOutcome(a, dep, "shape", BadShapes(ArgPool[a].sh)[q])
                 \/ res' = BadOutcome(a, dep, IF ArgPool[a].dt = "i" THEN "frac-for-int" ELSE "complex-for-float", ArgPool[a].sh)
-Eval == /\ Idle /\ Complete /\ nman >= F.minman
-        /\ (EvalGood \/ EvalBad)
-        /\ UNCHANGED <<prog, fam, nman>>
+CanEval == Idle /\ Complete /\ nman >= F.minman
+DoEvalGood == CanEval /\ EvalGood /\ UNCHANGED <<prog, fam, nman>>
+DoEvalBad == CanEval /\ EvalBad /\ UNCHANGED <<prog, fam, nman>>
 
 Init == prog = <<>> /\ fam \in 1..Len(Families) /\ nman = 0 /\ res = NoRes
-Next == AddLeaf \/ AddOp \/ Manip \/ BadReplace \/ Eval
+Next == \/ AddLeaf \/ AddOp
+        \/ DoReplaceSingle \/ DoReplaceDouble \/ DoReplaceBad \/ DoLinearize \/ DoDerive \/ DoFactorize \/ DoIntegrate
+        \/ DoEvalGood \/ DoEvalBad
 Spec == Init /\ [][Next]_vars
 
 \* ------------------------------------------------------------------ internal invariants (model-level lemmas)
